@@ -742,6 +742,10 @@ fn misc_family(props: &str, out: &mut Vec<Fail>) -> usize {
     if props.contains("C14") {
         case(vec![("m", "pub type T { pub a: u32 } pub type T { pub a: u64 }".into())], 4, &expect_err, out, "registration");
         case(vec![("m", "pub type T { pub a: u32 } #[size(4), align(4)] extern type T;".into())], 4, &expect_err, out, "registration");
+        // a declaration named like the vftable struct that is generated for another type (F10): never a silent overwrite
+        case(vec![("m", "pub type FooVftable { pub a: u32 } pub type Foo { vftable { pub fn f(&self); }, }".into())], 4, &expect_err, out, "registration");
+        case(vec![("m", "pub type Foo { vftable { pub fn f(&self); }, } pub enum FooVftable: u8 { X }".into())], 8, &expect_err, out, "registration");
+        case(vec![("m", "pub type Foo { vftable { pub fn f(&self); }, } #[size(4), align(4)] extern type FooVftable;".into())], 8, &expect_err, out, "registration");
         case(vec![("m", "pub type A { pub a: u32 } pub enum E: u8 { X } pub type V { vftable { pub fn f(&self); }, }".into()), ("n", "pub type B { pub a: u8 }".into())], 4,
              &|o| match o { Outcome::Ok(st) => {
                  let m = st.modules().get(&ItemPath::from("m")); let nn = st.modules().get(&ItemPath::from("n"));
